@@ -93,7 +93,7 @@ def runRedef (fl : Flags) (b : Block) : Res :=
                        trackReaching := fl.trackReaching, takeValuedNamed := fl.takeValuedNamed,
                        skipRecordsInput := fl.skipRecordsInput, hopCopies := fl.hopCopies,
                        auto := rdres.head? == some "crash" }
-    let o := redefine ctx cgr target fout (fuelFor sc) (initSt cgr.cg [] items) fl.dupIsError
+    let o := histRedefine ctx cgr target fout (fuelFor sc) {} items fl.dupIsError
     let c2 := if showRedef o = showImplRedef rdres then none
               else some s!"redefine_model=[{noSpace (showRedef o)}]_impl=[{noSpace (showImplRedef rdres)}]"
     -- predicates on the implementation's answer
